@@ -176,6 +176,27 @@ CLAIMED = {
              'is NOT decided: no static argument in reach bounds rounding error; only the necessary condition '
              '"no narrowing cast on a data path" is enforced.',
         note=TB + ' Assumes the module was converted to the dtype of its input.'),
+    'C08': dict(
+        level='other', design='DESIGN.md 4/C08',
+        technique='abstract interpretation into normal-form expressions over linear fields (symbolic magnitude bias) '
+                  '+ comparison with the defined coefficients built from the DTCWT reference rules; sign analysis',
+        text='ScatLayer / ScatLayerj2 (plain and band-pass filter families, colour combination on/off): every output '
+             'channel, as an expression valid for all inputs and all biases, equals the defined coefficient (pooled '
+             'reference lowpass; sqrt(re^2+im^2+b^2)-b of the reference subbands; second-order cascade over the '
+             'first-order magnitudes), band-major stacking and documented shapes for every size class; every '
+             'magnitude channel is proved non-negative; no partial primitive occurs.',
+        note=TB + ' The band order inside the 36 second-order channels is the one the repository tests pin against '
+                  'the NumPy reference.'),
+    'C09': dict(
+        level='other', design='DESIGN.md 4/C09',
+        technique='symbolic reverse-mode differentiation of the interpreted forward expression DAG compared, path by '
+                  'path, with the interpreted hand-written backward; abstract lower bounds for denominators',
+        text='For the four scattering Functions (grey / colour, plain / band-pass, symmetric and zero mode at first '
+             'order) and SmoothMagFn (every grad subset): the backward, never executed by the test-suite, is '
+             'interpreted on a symbolic cotangent and must coincide with the reverse-mode derivative of the forward '
+             'as a set of paths [linear operator, pointwise factor]*; every division / square root on forward, saved '
+             'tensors and backward is bounded away from zero by b > 0 (finite at the zero image).',
+        note=TB + ' Equality of linear stages is modulo the table symmetries discharged by C18.'),
 }
 
 NOT_APPLICABLE = {}
